@@ -215,7 +215,7 @@ CHECKS["C07"] = (
 
 CHECKS["C06"] = (
     "Rocq proof (URI matcher soundness/completeness over a model of urllib's parser fragment, HTML escaping, delivery round trips) + vm_compute correspondence (incl. differential validation of the urllib/html model on every generated string) + independent matcher oracle on the real endpoints",
-    "Theorems (Props/C06.v, 27, closed) over Model/Uri.v, Lib/Html.v, Model/Delivery.v: anything verify_uri accepts has no fragment, no "
+    "Theorems (Props/C06.v, 34, closed) over Model/Uri.v, Lib/Html.v, Model/Delivery.v: anything verify_uri accepts has no fragment, no "
     "control characters, a host, a valid port, an absolute path and equals a registered URI in scheme, netloc (hostname+userinfo for native "
     "loopback, port ignored only there), path, params and query multimap (C06_match_sound*); a registered URI is accepted "
     "(C06_match_complete); a failing redirect_uri never leads to a redirect (C06_error_is_direct); escaped text contains no markup and "
